@@ -210,17 +210,33 @@ def handle(job):
         fresh_db('words')
         lid = f"m{case['id']}"
         p = base_dir() / 'words.xml'
+        # case['xforms'] = [[word index, [forms]] ...]: those further forms are added to the
+        # word by an extension of the lexicon (ExternalLexicalEntry + Form); a Wordnet over
+        # the lexicon and the extension has the same words with the same forms
+        xf = {k: fs for k, fs in case.get('xforms', [])}
+        base_words = [[w_[0], w_[1], [f for f in w_[2] if f not in xf.get(k, [])]] + list(w_[3:])
+                      for k, w_ in enumerate(case['words'])]
         p.write_text(lmfgen.to_xml({'lmf_version': '1.1',
-                                    'lexicons': [word_lexicon(lid, case['words'])]}),
+                                    'lexicons': [word_lexicon(lid, base_words)]}),
                      encoding='utf-8')
         wn.add(p, progress_handler=None)
+        scope17 = f'{lid}:1'
+        if xf:
+            x = lmfgen.mini_lexicon(lid + 'x', '1')
+            x['extends'] = {'id': lid, 'version': '1'}
+            x['entries'] = [{'id': f'{lid}-w{k}', 'external': True,
+                             'forms': [{'writtenForm': f} for f in fs]} for k, fs in sorted(xf.items())]
+            p2 = base_dir() / 'words-x.xml'
+            p2.write_text(lmfgen.to_xml({'lmf_version': '1.1', 'lexicons': [x]}), encoding='utf-8')
+            wn.add(p2, progress_handler=None)
+            scope17 = f'{lid}:1 {lid}x:1'
         o = {'id': case['id'], 'words': case['words'], 'calls': []}
         try:
             with limit(case.get('timeout', 20)):
-                w = wn.Wordnet(f'{lid}:1')
+                w = wn.Wordnet(scope17)
                 mi = Morphy(w)
                 mu = Morphy()
-                ws = wn.Wordnet(f'{lid}:1', normalizer=None)
+                ws = wn.Wordnet(scope17, normalizer=None)
                 for form, pos in case['queries']:
                     pa = None if pos == '~' else pos
                     for init, m in ((True, mi), (False, mu)):
@@ -228,7 +244,7 @@ def handle(job):
                             row = [form, pos, init, 'ok', res_map(m(form, pa))]
                             # a Wordnet using this lemmatizer (exact matching, all forms): the
                             # words it finds for the query, as (pos, lemma) pairs
-                            wl = wn.Wordnet(f'{lid}:1', lemmatizer=m, normalizer=None)
+                            wl = wn.Wordnet(scope17, lemmatizer=m, normalizer=None)
                             row.append(sorted([x.pos, str(x.lemma())] for x in wl.words(form, pos=pa)))
                             o['calls'].append(row)
                             # ... and one long-lived Wordnet whose lemmatizer attribute is
